@@ -561,6 +561,53 @@ Proof.
   - apply fuel_of_gt.
 Qed.
 
+(** the proposed repair of C11-K5: no bound on the chunk size is needed *)
+Lemma distinct_chunk_fix_spec : forall rows seen o s R,
+  distinct_chunk_fix rows seen = (o, s) ->
+  dedup_from seen (rows ++ R) = o ++ dedup_from s R.
+Proof.
+  induction rows as [|r t IH]; intros seen o s R.
+  - cbn [distinct_chunk_fix]. intros H. injection H as <- <-. reflexivity.
+  - cbn [distinct_chunk_fix app dedup_from].
+    destruct (seen_mem (row_key r) seen).
+    + intros H. apply (IH seen o s R H).
+    + destruct (distinct_chunk_fix t (row_key r :: seen)) as [o' s'] eqn:E2.
+      intros H. injection H as <- <-. cbn [app]. f_equal. apply (IH _ o' s' R E2).
+Qed.
+Lemma distinct_next_fix_none : forall cs seen, distinct_next_fix seen cs = None ->
+  dedup_from seen (rows_of cs) = [].
+Proof.
+  induction cs as [|c rest IH]; intros seen; [reflexivity|]. cbn [distinct_next_fix].
+  destruct (distinct_chunk_fix (lrows c) seen) as [o s] eqn:E.
+  rewrite rows_of_cons, (distinct_chunk_fix_spec (lrows c) seen o s (rows_of rest) E).
+  destruct o; [|discriminate]. intros H. cbn [app]. now apply IH.
+Qed.
+Lemma distinct_next_fix_some : forall cs seen c seen' rest,
+  distinct_next_fix seen cs = Some (c, seen', rest) ->
+  (length rest < length cs)%nat /\
+  dedup_from seen (rows_of cs) = lrows c ++ dedup_from seen' (rows_of rest).
+Proof.
+  induction cs as [|c0 rest0 IH]; intros seen c seen' rest; [discriminate|]. cbn [distinct_next_fix].
+  destruct (distinct_chunk_fix (lrows c0) seen) as [o s] eqn:E.
+  rewrite rows_of_cons, (distinct_chunk_fix_spec (lrows c0) seen o s (rows_of rest0) E).
+  destruct o as [|r o].
+  - intros H. destruct (IH _ _ _ _ H) as (A & C). split; [cbn [length]; lia|]. cbn [app]. exact C.
+  - intros H. injection H as <- <- <-. split; [cbn [length]; lia|]. reflexivity.
+Qed.
+Lemma distinct_fix_spec_l cs : rows_of (drain_distinct_fix cs) = dedup_from [] (rows_of cs).
+Proof.
+  unfold drain_distinct_fix.
+  apply (drain_st_spec distinct_next_fix (fun _ _ => True) (fun seen cs => dedup_from seen (rows_of cs))).
+  - intros seen cs0 _. apply distinct_next_fix_none.
+  - intros seen cs0 c seen' rest _ H. destruct (distinct_next_fix_some _ _ _ _ _ H) as (A & C). auto.
+  - exact I.
+  - apply fuel_of_gt.
+Qed.
+(** on the chunks every engine producer emits the repaired operator answers as the current one *)
+Lemma distinct_fix_same_small cs : Forall small_chunk cs ->
+  rows_of (drain_distinct_fix cs) = rows_of (drain_distinct cs).
+Proof. intros W. now rewrite distinct_fix_spec_l, distinct_spec_l. Qed.
+
 (** what [dedup_from] returns: every key of the input once, in first-occurrence order *)
 Lemma keypart_eqb_eq a b : keypart_eqb a b = true <-> a = b.
 Proof.
